@@ -509,6 +509,31 @@ func ruleStatusIffFailed(c *Ctx, rule string) {
 	}
 	c.floor(rule, "status attachments in processUnaryRpc", n, 1)
 	c.check(rule, "processUnaryRpc:status-stored", len(env.Fields["Status"].Stores) == 1 && env.Fields["Status"].Must, "the reply envelope's Status field is set from that variable", p.ipos(env.At()))
+	// stream: in SendTrailer every path on which trErr is non-nil overwrites the OK status before the trailer is
+	// written (the converse of C03.3's "error never yields OK")
+	st := p.MustFn("server.serverStream.SendTrailer")
+	var codeStores []ssa.Instruction
+	allInstrs(st, func(i ssa.Instruction) {
+		if s, ok := i.(*ssa.Store); ok {
+			if fa, ok := s.Addr.(*ssa.FieldAddr); ok && fieldName(fa) == "Code" && typeKey(deref(fa.X.Type())) == "pb.ResponseStatus" {
+				if _, isC := constInt(stripConvert(s.Val)); !isC {
+					codeStores = append(codeStores, i)
+				}
+			}
+		}
+	})
+	c.floor(rule, "status code taken from the handler's error in SendTrailer", len(codeStores), 1)
+	for _, w := range p.transportOps(st, "Write", false) {
+		hit := p.pathAvoiding(st, nil, func(i ssa.Instruction) bool { return i == w }, func(i ssa.Instruction) bool {
+			for _, cs := range codeStores {
+				if i == cs {
+					return true
+				}
+			}
+			return false
+		}, p.edgeImplies(st, atom("isnil", "p:trErr")))
+		c.check(rule, "SendTrailer:handler-error⇒status", hit == nil, "every path to the trailer write on which the handler's error is non-nil replaces the OK status by the error's status", p.ipos(w))
+	}
 	// stream: SendTrailer's argument is the handler's / interceptor's result
 	rs := p.MustFn("goat.handler.runStream")
 	for _, ci := range p.callsTo(rs, "server.serverStream.SendTrailer", false) {
